@@ -191,6 +191,80 @@ FUNCS = {
 }
 
 
+def _der_uint_enc(x, c):
+    L = 1 + c["L"] % 40
+    val = bytearray(expand(c["seed"], L))
+    if c["L2"] % 3 == 0:
+        val[-1] |= 0x80        # top bit set: a zero octet is prepended
+    elif c["L2"] % 3 == 1 and L > 1:
+        val[-1] = 0             # leading zero octets are dropped
+    val = bytes(val)
+    tag = [0x02, 0x81, 0x1F21][c["k"] % 3]
+    n = x.call("derTUINTEnc", None, tag, x.buf(val), L, ret="z")
+    return dict(ins={"val": val}, outs={"der": n}, call=lambda B: ("derTUINTEnc", [B["der"], tag, B["val"], L], "z"))
+
+
+def _der_bit_enc(x, c):
+    bits = c["L"] * 3 + c["L2"] % 8
+    L = (bits + 7) // 8
+    val = expand(c["seed"], L)
+    tag = 0x03
+    n = x.call("derTBITEnc", None, tag, x.buf(val), bits, ret="z")
+    return dict(ins={"val": val}, outs={"der": n}, call=lambda B: ("derTBITEnc", [B["der"], tag, B["val"], bits], "z"))
+
+
+def _der_pstr_enc(x, c):
+    L = c["L"] % 50
+    val = bytes(0x41 + b % 26 for b in expand(c["seed"], L)) + b"\0"
+    tag = 0x13
+    n = x.call("derTPSTREnc", None, tag, x.buf(val), ret="z")
+    return dict(ins={"val": val}, outs={"der": n}, call=lambda B: ("derTPSTREnc", [B["der"], tag, B["val"]], "z"))
+
+
+def _der_dec(kind, two):
+    """decoders whose value buffer may overlap the DER code"""
+    def prep(x, c):
+        tag = {"UINT": 0x02, "BIT": 0x03, "OCT": 0x04, "PSTR": 0x13}[kind]
+        if kind == "UINT":
+            L = 1 + c["L"] % 40
+            v = bytearray(expand(c["seed"], L))
+            if L > 1 and v[-1] == 0:
+                v[-1] = 1
+            if c["L2"] % 2:
+                v[-1] |= 0x80
+            val, ln, outsz = bytes(v), L, L
+            n = x.call("derTUINTEnc", None, tag, x.buf(val), L, ret="z"); d = x.out(n); x.call("derTUINTEnc", d, tag, x.buf(val), L, ret="z")
+        elif kind == "BIT":
+            bits = c["L"] * 3 + c["L2"] % 8
+            ln, outsz = bits, (bits + 7) // 8
+            val = expand(c["seed"], outsz)
+            n = x.call("derTBITEnc", None, tag, x.buf(val), bits, ret="z"); d = x.out(n); x.call("derTBITEnc", d, tag, x.buf(val), bits, ret="z")
+        elif kind == "OCT":
+            ln = outsz = c["L"] * 2
+            val = expand(c["seed"], ln)
+            n = x.call("derEnc", None, tag, x.buf(val), ln, ret="z"); d = x.out(n); x.call("derEnc", d, tag, x.buf(val), ln, ret="z")
+        else:
+            ln = c["L"] % 50
+            outsz = ln + 1
+            val = bytes(0x41 + b % 26 for b in expand(c["seed"], ln)) + b"\0"
+            n = x.call("derTPSTREnc", None, tag, x.buf(val), ret="z"); d = x.out(n); x.call("derTPSTREnc", d, tag, x.buf(val), ret="z")
+        der = d.read()
+        fn = "derT%sDec%s" % (kind, "2" if two else "")
+        if two:
+            return dict(ins={"der": der}, outs={"val": outsz}, call=lambda B: (fn, [B["val"], B["der"], n, tag, ln], "z"))
+        return dict(ins={"der": der}, outs={"val": outsz, "len": 8}, only_anchor={"len": ["__none__"]}, call=lambda B: (fn, [B["val"], B["len"], B["der"], n, tag], "z"))
+    return prep
+
+
+FUNCS.update({
+    "derTUINTEnc": _der_uint_enc, "derTBITEnc": _der_bit_enc, "derTPSTREnc": _der_pstr_enc,
+    "derTUINTDec": _der_dec("UINT", False), "derTUINTDec2": _der_dec("UINT", True),
+    "derTBITDec": _der_dec("BIT", False), "derTBITDec2": _der_dec("BIT", True),
+    "derTOCTDec": _der_dec("OCT", False), "derTOCTDec2": _der_dec("OCT", True),
+    "derTPSTRDec": _der_dec("PSTR", False),
+})
+
+
 def do_call(x, spec_call, B):
     fn, args, ret = spec_call(B)
     if fn == "__seq__":
@@ -217,10 +291,18 @@ def run_one(ctx, fname, c, placement):
     # arena layout
     off = PAD
     pos = {}
-    for k, v in ins.items():
+    lay = c.get("lay") or []
+    names = list(ins)
+    if lay and "gap" not in spec:
+        # generated arena layout: order of the inputs and the gaps between them (0 = adjacent)
+        names = [n for _, n in sorted(zip([lay[i % len(lay)][0] for i in range(len(names))], names), key=lambda t: t[0])]
+    for i, k in enumerate(names):
+        v = ins[k]
         pos[k] = (off, len(v))
-        off += len(v) + spec.get("gap", 48)
-        off = (off + 7) // 8 * 8
+        gap = spec.get("gap", lay[i % len(lay)][1] if lay else 48)
+        off += len(v) + gap
+        if not lay:
+            off = (off + 7) // 8 * 8
     total = off + PAD
     opos = {}
     sep = {}
@@ -329,7 +411,8 @@ def run_overlap(ctx, c):
 S_OVER = st.fixed_dictionaries({
     "fn": st.sampled_from(sorted(FUNCS)), "L": st.one_of(st.sampled_from([0, 1, 15, 16, 17, 31, 32, 33, 47, 48, 49, 64, 65, 80]), st.integers(0, 100)),
     "L2": st.integers(0, 48), "k": st.integers(0, 7), "seed": st.binary(min_size=1, max_size=3).map(bytes.hex),
-    "pl": st.lists(st.one_of(st.none(), st.tuples(st.integers(0, 5), st.floats(0, 1), st.one_of(st.none(), st.integers(-20, 20)))), min_size=1, max_size=3)})
+    "pl": st.lists(st.one_of(st.none(), st.tuples(st.integers(0, 5), st.floats(0, 1), st.one_of(st.none(), st.integers(-20, 20)))), min_size=1, max_size=3),
+    "lay": st.one_of(st.none(), st.lists(st.tuples(st.integers(0, 9), st.sampled_from([0, 0, 1, 3, 8, 16, 48])).map(list), min_size=1, max_size=5))})
 
 
 SWEEP_FUNCS = [f for f in sorted(FUNCS) if not f.endswith("StartG")]
@@ -343,27 +426,28 @@ def sweep_delta(ctx, part, nparts):
     lens = [16, 17, 33, 48] if ctx.tier == "quick" else [0, 1, 16, 17, 31, 32, 33, 48, 49, 64, 80]
     for fname in fl:
         for L in lens:
-            c = {"fn": fname, "L": L, "L2": 21 if L % 2 else 16, "k": L % 3 + (0 if L % 2 else 1), "seed": "%02x" % L}
-            spec0 = FUNCS[fname](x, c)
-            x.reset()
-            out0 = list(spec0["outs"])[0]
-            for anchor, v in spec0["ins"].items():
-                osz = spec0["outs"][out0]
-                deltas = range(-(osz + 16), len(v) + 17)
-                if ctx.tier == "quick" and anchor not in ("src", "src1", "val", "key"):
-                    deltas = range(-(osz + 16), len(v) + 17, 3)
-                for d in deltas:
-                    x.reset()
-                    placement = {k: None for k in spec0["outs"]}
-                    placement[out0] = (anchor, d)
-                    try:
-                        spec, pos, opos = run_one(ctx, fname, c, placement)
-                    except Fail as e:
-                        e.case = {"fn": fname, "c": c, "placement": {out0: [anchor, d]}}
-                        raise
-                    n += 1
-                    if n % 7 == 0:
-                        classify(ctx, fname, spec, pos, opos)
+            for lay in (None, [[9, 0], [5, 0], [1, 0], [0, 0]]):
+                c = {"fn": fname, "L": L, "L2": 21 if L % 2 else 16, "k": L % 3 + (0 if L % 2 else 1), "seed": "%02x" % L, "lay": lay}
+                spec0 = FUNCS[fname](x, c)
+                x.reset()
+                out0 = list(spec0["outs"])[0]
+                for anchor, v in spec0["ins"].items():
+                    osz = spec0["outs"][out0]
+                    deltas = range(-(osz + 16), len(v) + 17)
+                    if ctx.tier == "quick" and anchor not in ("src", "src1", "val", "key"):
+                        deltas = range(-(osz + 16), len(v) + 17, 3)
+                    for d in deltas:
+                        x.reset()
+                        placement = {k: None for k in spec0["outs"]}
+                        placement[out0] = (anchor, d)
+                        try:
+                            spec, pos, opos = run_one(ctx, fname, c, placement)
+                        except Fail as e:
+                            e.case = {"fn": fname, "c": c, "placement": {out0: [anchor, d]}}
+                            raise
+                        n += 1
+                        if n % 7 == 0:
+                            classify(ctx, fname, spec, pos, opos)
     ctx.count(n)
     if part == 0:
         ctx.sample({"sweep": "all deltas", "functions": fl, "lengths": lens})
